@@ -172,7 +172,16 @@ def validate_segments(ck, prop, trace, owner, wd, scripts_by, module="Trace_Read
         ck.states += states; ck.transitions += states; ck.traces += rounds
         for ev, cid, seg in found:
             scr, name, path = scripts_by.get(cid, ("", cid, None))
-            if path and os.path.exists(path):
+            if isinstance(path, (list, tuple)):
+                for j, item in enumerate(path):        # several files: paths to copy, or (path, initial bytes)
+                    src, data = (item if isinstance(item, tuple) else (item, None))
+                    keep = os.path.join(common.REPLAY, "%s-%s-%d%s" % (prop, cid, j, os.path.splitext(src)[1]))
+                    if data is not None:
+                        open(keep, "wb").write(data)
+                    elif os.path.exists(src):
+                        shutil.copy(src, keep)
+                    scr = scr.replace(src, keep)
+            elif path and os.path.exists(path):
                 keep = os.path.join(common.REPLAY, "%s-%s.zck" % (prop, cid)); shutil.copy(path, keep); scr = scr.replace(path, keep)
             ck.violation("%s: event %s not explained by the contract; execution: %s" % (name, json.dumps(ev), json.dumps(seg)[:700]), scr, {"event": ev})
     ck.models.append({"model": module + " (trace validation)", "executions": len(segs)})
